@@ -258,7 +258,7 @@ def main(argv=None):
         for s in scns:
             print(s["sid"], s["fn"], s.get("params"))
         return 0
-    timeout_s = getattr(mod, "TIMEOUT_S", {"quick": 420, "thorough": 1800})[tier]
+    timeout_s = getattr(mod, "TIMEOUT_S", {"quick": 900, "thorough": 1800})[tier]
     # one scratch directory per run: two runs of the same check (e.g. against two worktrees) must not share result files
     workdir = os.path.join(HERE, ".work", "%s_%d" % (pid, os.getpid()))
     results = run_scenarios(pid, scns, seed, a.jobs, timeout_s, workdir)
